@@ -54,6 +54,10 @@ def run(ctx):
         _wrapgate(ctx, cfg, prog, mod)
         _builder(ctx, cfg, prog, mod)
         _topokeep(ctx, cfg, prog, mod)
+        import idkeep
+        ctx.rule('IDENT', 'wrapped vertices keep the UUID and data of the input vertex they replace')
+        idkeep.check(ctx, cfg, prog, mod, 'IDENT',
+                     lambda o: o.rsplit('::', 1)[-1] in ('canonicalize_vertices', 'build_periodic', 'canonicalize_vertex_for_insertion'), 3)
     return ctx.finish(EXPLANATION)
 
 
